@@ -4,9 +4,9 @@ import TLVerif.Algo.Avl
 import TLVerif.Algo.Circular
 /-! Line-protocol handler for the `algo` family. One line = one whole operation history:
 
-`algo.tree  op,op,…`   ops: `s:K:V` Set, `d:K` Delete, `g:K` Get, `e` Empty, `f` Front, `b` Back, `m` LenMoreThan1,
+`algo.tree  op,op,…`   ops: `s:K:V` Set, `d:K` Delete, `g:K` Get, `u:K:V` store V through GetPtr(K) if non-nil, `e` Empty, `f` Front, `b` Back, `m` LenMoreThan1,
                        `V` validate, `D` dump (structure with stored heights; real height; max real balance)
-`algo.circ  op,op,…`   ops on a pair (s, other): `p:X` s.PushBack, `q` s.PopFront, `f` s.Front, `i:POS` s.Index,
+`algo.circ  op,op,…`   ops on a pair (s, other): `p:X` s.PushBack, `q` s.PopFront, `f` s.Front, `i:POS` s.Index, `x:POS:V` *s.IndexRef(POS)=V,
                        `r:N` s.Reserve, `c` s.Clear, `w` s.Swap(&other), `a` s.DeepAssign(other), `l` Len, `k` Cap,
                        `S` Slices, `D` raw dump of both (elements, read_pos, write_pos)
 
@@ -41,6 +41,10 @@ def treeStep (t : TreeMap) (op : String) : Option (TreeMap × String) :=
       | none => some (t, "panic")
       | some t' => some (t', ".")
     | none => none
+  | ["u", k, v] =>
+    match k.toInt?, v.toNat? with
+    | some k, some v => let (t', b) := t.update k v; some (t', bstr b)
+    | _, _ => none
   | ["g", k] =>
     match k.toInt? with
     | some k => some (t, match t.get k with | none => "-" | some v => toString v)
@@ -74,6 +78,10 @@ def parseQOp (op : String) : Option (Option QOp) :=
   | ["q"] => some (some .pop)
   | ["f"] => some (some .front)
   | ["i", p] => (p.toInt?).map (fun p => some (.index p))
+  | ["x", p, v] =>
+    match p.toInt?, v.toNat? with
+    | some p, some v => some (some (.indexSet p v))
+    | _, _ => none
   | ["r", n] => (n.toInt?).map (fun n => some (.reserve n))
   | ["c"] => some (some .clear)
   | ["w"] => some (some .swap)
